@@ -47,6 +47,7 @@ func (r *c15run) feed(mut string, in []byte) {
 	c.Count("inputs:"+c15targets[r.target], 1)
 	c.Count("mutator:"+mut, 1)
 	c.Checkpoint(c15targets[r.target], in)
+	c.Distinct("nontrivial", fw.Hash64(r.target, in))
 	defer func() {
 		if rec := recover(); rec != nil {
 			msg := fmt.Sprint(rec)
@@ -457,7 +458,6 @@ func runC15(c *fw.Ctx) {
 			run.feed("random bytes", b)
 		}
 	}
-	c.Distinct("nontrivial", fw.Hash64(c.Idx, target))
 	if c.Idx < 4 {
 		s := map[string]any{"target": c15targets[target]}
 		if len(cp.mptNodes) > 0 {
@@ -472,12 +472,13 @@ func runC15(c *fw.Ctx) {
 
 func init() {
 	fw.Register(&fw.Prop{
-		ID:    "C15",
-		Level: "exploration",
+		ID:           "C15",
+		EvalCounters: []string{"inputs"},
+		Level:        "exploration",
 		Rule: "each case harvests real encodings at run time (state-trie nodes of a generated trie incl. a value node; weighted-trie nodes from a committed store, hash and nil nodes; GetPath exports for 0/1/3/12 keys; block proofs) and feeds one of five decoding entry points (case index mod 5; the fifth plants the bytes as a persisted dead-node record and runs the pruner over it) with derived inputs: " +
 			"every truncation length (exhaustive for bases <= 512 bytes), every value 0..255 of the first byte, removal of each ':' separator, bit flips, byte inserts/deletes, CBOR head inflation to 1/2/4/8-byte lengths, field splicing between encodings, every type byte x crafted bodies (one separator, 15/16/17 separators, child hex of length 63/65/66, non-hex), " +
 			"branch child hex strings of every length 0..140, CBOR child/value/hash blobs of every length 0..80, branch arrays of 0..20 children, nil / empty / dropped / duplicated / foreign elements in exports and proofs, hand-crafted CBOR (nil in place of structs, wrong arities, indefinite lengths), random bytes. " +
-			"The input is written to disk before each call; a recovered panic, a fatal exit or a call that does not return for 60 s is a violation; accepted inputs are re-encoded (Encode/GetHashBytes/CloneNode; Serialize/Copy; Root/GetPath). distinct non-trivial = (case, target) pairs; inputs are counted per mutator",
+			"The input is written to disk before each call; a recovered panic, a fatal exit or a call that does not return for 60 s is a violation; accepted inputs are re-encoded (Encode/GetHashBytes/CloneNode; Serialize/Copy; Root/GetPath). distinct non-trivial = distinct (decoder, input bytes) pairs; inputs are also counted per mutator",
 		Cases: func(tier string) int {
 			if tier == "thorough" {
 				return 16000
